@@ -225,6 +225,85 @@ pub fn decode_reader(
 	}
 }
 
+/// Outcome of decoding up to `n` datums, one after the other, through ONE `DeserializerState` (state that a reader
+/// carries from one datum to the next — scratch buffer, limits, counters — is part of what is observed)
+#[derive(Clone, Debug, PartialEq)]
+pub struct StreamOut {
+	/// one entry per datum attempted; decoding stops at the first `Err`
+	pub items: Vec<Result<Val, String>>,
+	pub consumed: usize,
+	pub panicked: Option<String>,
+}
+
+pub fn decode_stream_slice(schema: &Schema, env: &Env, ty: &Ty, bytes: &[u8], n: usize, target: Target, limits: Limits) -> StreamOut {
+	let mut config = DeserializerConfig::new(schema);
+	config.max_seq_size = limits.max_seq_size;
+	config.allowed_depth = limits.allowed_depth;
+	let mut items = vec![];
+	let mut consumed = 0;
+	let r = crate::runner::catch(std::panic::AssertUnwindSafe(|| {
+		let mut st = DeserializerState::with_config(serde_avro_fast::de::read::SliceRead::new(bytes), config);
+		for _ in 0..n {
+			let (r, _, _) = run_target(target, env, ty, st.deserializer());
+			let stop = r.is_err();
+			crate::simalloc::unmeasured(|| items.push(r.map_err(|e| e.to_string())));
+			if stop {
+				break;
+			}
+		}
+		let mut rest = st.into_reader();
+		let left = std::io::BufRead::fill_buf(&mut rest).map(|b| b.len()).unwrap_or(0);
+		consumed = bytes.len() - left;
+	}));
+	StreamOut { items, consumed, panicked: r.err() }
+}
+
+pub fn decode_stream_reader(schema: &Schema, env: &Env, ty: &Ty, bytes: &[u8], n: usize, target: Target, limits: Limits, kind: &ReaderKind) -> (StreamOut, SourceStats) {
+	let mut config = DeserializerConfig::new(schema);
+	config.max_seq_size = limits.max_seq_size;
+	config.allowed_depth = limits.allowed_depth;
+	let (plan, cap) = match kind {
+		ReaderKind::Direct(p) => (p.clone(), None),
+		ReaderKind::BufReader { cap, plan } => (plan.clone(), Some((*cap).max(1))),
+	};
+	let budget = step_budget(bytes.len(), &limits).saturating_add(64 * n as u64);
+	let mut src = SimSource::new(bytes, plan).with_step_budget(budget);
+	let mut items = vec![];
+	let mut buffered = 0;
+	let r = crate::runner::catch(std::panic::AssertUnwindSafe(|| match cap {
+		None => {
+			let mut rr = ReaderRead::new(&mut src);
+			rr.max_alloc_size = limits.max_alloc_size;
+			let mut st = DeserializerState::with_config(rr, config);
+			for _ in 0..n {
+				let (r, _, _) = run_target(target, env, ty, st.deserializer());
+				let stop = r.is_err();
+				crate::simalloc::unmeasured(|| items.push(r.map_err(|e| e.to_string())));
+				if stop {
+					break;
+				}
+			}
+		}
+		Some(cap) => {
+			let br = std::io::BufReader::with_capacity(cap, &mut src);
+			let mut rr = ReaderRead::new(br);
+			rr.max_alloc_size = limits.max_alloc_size;
+			let mut st = DeserializerState::with_config(rr, config);
+			for _ in 0..n {
+				let (r, _, _) = run_target(target, env, ty, st.deserializer());
+				let stop = r.is_err();
+				crate::simalloc::unmeasured(|| items.push(r.map_err(|e| e.to_string())));
+				if stop {
+					break;
+				}
+			}
+			buffered = st.into_reader().into_inner().buffer().len();
+		}
+	}));
+	let consumed = src.position() - buffered;
+	(StreamOut { items, consumed, panicked: r.err() }, src.finish())
+}
+
 /// Serialize with the real crate into any `Write`
 pub fn crate_encode_to<W: std::io::Write>(
 	config: &mut SerializerConfig<'_>,
